@@ -35,7 +35,7 @@ def gen_cases(rng, h, info, quick):
         lines.append('chkfac\t%d %d %d %d' % (ri['row'], *m))
         lines.append('hdrw\t%d %d %d %d %d' % (ri['row'], *F.compatible_size(rng, ri, small=True), rng.choice([0, 1, 2, 6])))
     # ---- symmetrisation / mask on the model and on gemmi (covering sample of rows x compatible sizes)
-    sample = F.pick_rows(rng, info, 25 if quick else 150)
+    sample = F.pick_rows(rng, info, 25 if quick else 300)
     bricks = []
     for ri in sample:
         n = F.compatible_size(rng, ri, small=quick or rng.random() < 0.7)
@@ -128,7 +128,7 @@ def run(chk):
     proved = chk.prove()
     h, d = F.harness(), F.driver()
     info = F.rows_info(h)
-    for rep in range(1 if quick else 3):
+    for rep in range(1 if quick else 6):
         lines, bricks = gen_cases(rng, h, info, quick)
         # the ASU brick is an input of the mask model: ask the implementation first
         rc, out, err = vlib.run_lines(h, [], inp=''.join('brick\t%d %d %d %d\n' % (ri['row'], *n) for ri, n in bricks).encode())
@@ -139,7 +139,7 @@ def run(chk):
         res = vlib.correspond(chk, h, d, lines)
         report(chk, res)
     chk.rule = ('index arithmetic at the boundaries of every case split and random ints; all 564 rows: grid factors, scaled '
-                'operations, check_grid_factors, written header words; covering sample of rows (quick 45, thorough 3x170) x compatible grid sizes <= 24: '
+                'operations, check_grid_factors, written header words; covering sample of rows (quick ~55, thorough 6 x ~330) x compatible grid sizes <= 24: '
                 'symmetrize_{min,max,abs_max,sum,nondefault} and get_asu_mask compared exactly with the extracted model; hand-made '
                 'files with 6 axis orders x modes 0/1/2/6 x 2 byte orders x 3 set-up modes x random boxes compared with the model '
                 '(dimensions, header words, voxel hash); oracles on gemmi: write-read identity (file, memory, other byte order, '
